@@ -36,13 +36,38 @@ def run(tier, seed, replay):
     E.pymodule_attr = pymodule_attr
     E.models["norminette/tools/colors.py:colors"] = lambda E_, s, a, k: [(s, Opaque("colored"))]
 
-    def replay_cli(ob, model):
+    def replay_cli(ob=None, model=None):
         nat = run_native("cli_harness", {"op": "search", "maxlen": 2}, timeout=600)
         if nat["violations"]:
             v = nat["violations"][0]
             return True, v["what"], v["task"]
         return None
     chk.run_contract(E, c, replay=replay_cli)
+    # frame of the tail: the diagnostics of a file are what the pipeline put into ITS Errors
+    # object -- main() must not rebind or share them, and must run the pipeline for every file
+    import ast as _ast
+    mainf = chk.repo.find_function(CLI.MAIN)
+    kept, _dropped = CLI.tail_slice(list(mainf.node.body))
+    writes = []
+    for st_ in kept:
+        for x in _ast.walk(st_):
+            if isinstance(x, _ast.Attribute) and isinstance(x.ctx, (_ast.Store, _ast.Del)) and x.attr in ("errors", "_inner"):
+                writes.append(_ast.unparse(x))
+    rpw = replay_cli() if writes else None
+    chk.frame("main.tail_does_not_rebind_errors", not writes, {"writes": writes}, replay=rpw[2] if rpw else None,
+              what=f"main() assigns {writes}: a file's verdict no longer comes from its own analysis")
+    loop = kept[0]
+    calls = [_ast.unparse(x.func) for x in _ast.walk(loop) if isinstance(x, _ast.Call)]
+    uncond = []
+    for st_ in loop.body:
+        if isinstance(st_, _ast.Try):
+            for b in st_.body:
+                uncond += [_ast.unparse(x.func) for x in _ast.walk(b) if isinstance(x, _ast.Call)] \
+                    if not isinstance(b, (_ast.If, _ast.While, _ast.For)) else []
+    need = ["Lexer", "Context", "registry.run"]
+    miss = [n for n in need if n not in uncond]
+    chk.frame("main.every_file_goes_through_the_pipeline", not miss, {"unconditional_calls": uncond, "missing": miss},
+              what=f"main() no longer runs {miss} unconditionally for every file of the list")
 
     # Errors.status: OK iff no Error-level diagnostic
     from ..specs import errors as SE
